@@ -668,3 +668,234 @@ Proof.
     rewrite Hsp; [discriminate|].
     rewrite <- crop_rem_start by lia. pose proof (length_row_major x0 (x0 + w) y0 (y0 + h)). nia.
 Qed.
+
+(* ---- geometry helpers for the adapters ---------------------------------------------------------- *)
+Lemma intersection_size_fits a b :
+  size_fits (sz a) -> size_fits (sz b) -> size_fits (sz (intersection a b)).
+Proof.
+  unfold size_fits, i32_max. destr_rects. unf. intros Ha Hb. split_ifs; cbn [tl sz px py sw sh]; lia.
+Qed.
+
+(* a non-empty rectangle lying inside another one is their intersection *)
+Lemma intersection_sub a b :
+  0 < sw (sz b) -> 0 < sh (sz b) ->
+  px (tl a) <= px (tl b) -> px (tl b) + sw (sz b) <= px (tl a) + sw (sz a) ->
+  py (tl a) <= py (tl b) -> py (tl b) + sh (sz b) <= py (tl a) + sh (sz a) ->
+  intersection a b = b.
+Proof.
+  destr_rects. unf. intros. split_ifs; cbn [tl sz px py sw sh]; try (exfalso; lia); (f_equal; f_equal; lia).
+Qed.
+
+Lemma translate_rect_back r d : translate_rect (translate_rect r (pneg d)) d = r.
+Proof. destruct r as [t s]. unfold translate_rect. cbn [tl sz]. rewrite padd_pneg. reflexivity. Qed.
+
+Lemma idx_in_translate r d q : idx_in (translate_rect r d) (padd q d) = idx_in r q.
+Proof. unfold idx_in, translate_rect, padd. cbn [tl sz px py]. f_equal; [f_equal|]; lia. Qed.
+
+Lemma idx_lt W a b :
+  0 <= W -> lt_yx a b -> 0 <= px a < W -> 0 <= px b < W -> py a * W + px a < py b * W + px b.
+Proof.
+  intros HW [Hy|[Hy Hx]] Ha Hb; [|rewrite Hy; lia].
+  assert ((py a + 1) * W <= py b * W) by (apply Z.mul_le_mono_nonneg_r; lia). lia.
+Qed.
+
+Lemma sget_smap f cs i : sget (smap f cs) i = match sget cs i with Some c => Some (f c) | None => None end.
+Proof.
+  destruct cs as [l|c]; cbn [smap sget]; [|reflexivity].
+  rewrite nth_error_map. destruct (nth_error l _); reflexivity.
+Qed.
+
+(* ---- Clipped::fill_contiguous: the re-cut colour stream pairs every point with its original colour -- *)
+Lemma cropped_iter_nth cs ca area q :
+  size_fits (sz area) -> size_nonneg ca ->
+  contains (intersection ca area) q = true ->
+  nth_error (cropped_iter cs (sz area) (translate_rect (intersection ca area) (pneg (tl area))))
+            (Z.to_nat (idx_in (intersection ca area) q))
+  = sget cs (idx_in area q).
+Proof.
+  intros Hs Hca Hq. set (inter := intersection ca area) in *.
+  pose proof (size_fits_nonneg _ Hs) as Han.
+  assert (is_zero_sized inter = false) as Ez.
+  { apply contains_spec in Hq. unfold is_zero_sized. lia. }
+  pose proof (intersection_inside ca area Hca Han Ez) as Hin. fold inter in Hin. cbv zeta in Hin.
+  destruct Hin as (_ & _ & _ & _ & Hx0 & Hx1 & Hy0 & Hy1 & Hw & Hh).
+  set (T := translate_rect inter (pneg (tl area))).
+  assert (size_nonneg T) as HTn by (unfold T, size_nonneg, translate_rect; cbn [sz]; lia).
+  rewrite cropped_iter_spec by assumption.
+  assert (intersection (R (P 0 0) (sz area)) T = T) as ->.
+  { apply intersection_sub; unfold T, translate_rect, padd, pneg; cbn [tl sz px py]; lia. }
+  assert (rect_fits T) as HTf.
+  { unfold size_fits in Hs. unfold T, rect_fits, size_fits, translate_rect, padd, pneg, i32_max, i32_min in *.
+    cbn [tl sz px py]. lia. }
+  set (q' := padd q (pneg (tl area))).
+  assert (contains T q' = true) as Hq' by (unfold T, q'; rewrite contains_translate; assumption).
+  pose proof (points_nth T q' HTf Hq') as Hn.
+  assert (idx_in T q' = idx_in inter q) as Ei by (unfold T, q'; apply idx_in_translate).
+  rewrite Ei in Hn.
+  set (g := fun p => sget cs (idx_in (R (P 0 0) (sz area)) p)).
+  assert (g q' = sget cs (idx_in area q)) as Eg.
+  { unfold g, q', idx_in, padd, pneg. cbn [tl sz px py]. f_equal. f_equal; [f_equal|]; lia. }
+  pose proof (map_nth_error g _ _ Hn) as Hl. rewrite Eg in Hl.
+  (* all points of T have 0 <= x < width *)
+  assert (forall p, In p (points T) -> 0 <= px p < sw (sz area) /\ 0 <= py p) as Hrange.
+  { intros p Hp. apply (points_in_fits T p HTf) in Hp. apply contains_spec in Hp.
+    unfold T, translate_rect, padd, pneg in Hp. cbn [tl sz px py] in Hp. lia. }
+  destruct (sget cs (idx_in area q)) as [c|] eqn:Ec.
+  - apply take_some_nth; [assumption|]. intros j Hj Hnone.
+    rewrite nth_error_map in Hnone. destruct (nth_error (points T) j) as [pj|] eqn:Epj; [|discriminate].
+    cbn [option_map] in Hnone. inversion Hnone as [Hg].
+    pose proof (StronglySorted_nth _ _ (points_sorted_fits T HTf) _ _ _ _ Hj Epj Hn) as Hlt.
+    pose proof (Hrange pj (nth_error_In _ _ Epj)) as [Hpx Hpy].
+    pose proof (Hrange q' (nth_error_In _ _ Hn)) as [Hqx Hqy].
+    pose proof (idx_lt (sw (sz area)) pj q' ltac:(lia) Hlt Hpx Hqx) as Hidx.
+    assert (0 <= py pj * sw (sz area)) by (apply Z.mul_nonneg_nonneg; lia).
+    revert Hg. unfold g. apply sget_mono with (b := idx_in (R (P 0 0) (sz area)) q').
+    + unfold idx_in. cbn [tl sz px py]. lia.
+    + fold (g q'). rewrite Eg. discriminate.
+  - destruct (nth_error (take_some _) _) as [c'|] eqn:E; [|reflexivity].
+    apply take_some_nth_inv in E. congruence.
+Qed.
+
+(* ---- one adapter, in terms of the reference semantics --------------------------------------------- *)
+Lemma free_clip own F ca c m q :
+  call_sizes c -> size_nonneg ca ->
+  free_paint own F (clip_call ca c) m q = if contains ca q then free_paint ca F c m q else m q.
+Proof.
+  intros Hc Hca. destruct c as [ps|area cs|area col|col]; cbn [clip_call call_sizes] in *.
+  - cbn [free_paint]. rewrite last_write_filter_fst. destruct (contains ca q); reflexivity.
+  - destruct (rect_eqb (intersection ca area) area) eqn:Efast.
+    + apply rect_eqb_eq in Efast. cbn [free_paint].
+      destruct (contains ca q) eqn:Hq; [reflexivity|].
+      rewrite <- Efast, intersection_spec, Hq. reflexivity.
+    + cbn [free_paint sget]. rewrite intersection_spec at 1.
+      destruct (contains ca q) eqn:Hq; cbn [andb]; [|reflexivity].
+      destruct (contains area q) eqn:Ha; [|reflexivity].
+      rewrite cropped_iter_nth; try assumption; [reflexivity|].
+      rewrite intersection_spec, Hq, Ha. reflexivity.
+  - unfold clip_fill_solid. cbn [free_paint]. rewrite intersection_spec.
+    destruct (contains area q), (contains ca q); reflexivity.
+  - unfold clip_fill_solid. cbn [free_paint]. rewrite intersection_spec.
+    destruct (contains ca q); reflexivity.
+Qed.
+
+Lemma free_transl own F d c m q :
+  free_paint own F (transl_call d c) m (padd q d) = free_paint (translate_rect own (pneg d)) F c (shift d m) q.
+Proof.
+  destruct c as [ps|area cs|area col|col]; cbn [transl_call free_paint]; unfold shift.
+  - unfold translate_pixels.
+    rewrite (last_write_map_fst (fun a => padd a d) (fun a => padd a (pneg d)))
+      by (intros; first [apply padd_pneg'|apply padd_pneg]).
+    rewrite padd_pneg'. reflexivity.
+  - rewrite contains_translate, idx_in_translate. reflexivity.
+  - rewrite contains_translate. reflexivity.
+  - rewrite <- (contains_translate (translate_rect own (pneg d)) d q), translate_rect_back. reflexivity.
+Qed.
+
+Lemma free_crop own F off size c m q :
+  free_paint own F (crop_call off size c) m (padd q off) = free_paint (R (P 0 0) size) F c (shift off m) q.
+Proof.
+  destruct c as [ps|area cs|area col|col]; cbn [crop_call]; rewrite free_transl; reflexivity.
+Qed.
+
+Lemma free_conv own F f c m q :
+  free_paint own F (conv_call f c) m q = free_paint own (fun x => F (f x)) c m q.
+Proof.
+  destruct c as [ps|area cs|area col|col]; cbn [conv_call free_paint]; try reflexivity.
+  - rewrite last_write_map_snd. destruct (last_write q ps); reflexivity.
+  - rewrite sget_smap. destruct (contains area q); [|reflexivity]. destruct (sget cs _); reflexivity.
+Qed.
+
+(* ---- stacks ------------------------------------------------------------------------------------- *)
+(* every call on an adapter becomes exactly one call on its parent *)
+Fixpoint lower_call (st : list adapter) (bb : rect) (c : call) : call :=
+  match st with
+  | [] => c
+  | ad :: rest => lower_call rest bb (lower1c ad (bbox_stack rest bb) c)
+  end.
+
+Lemma lower_singleton st bb c : lower st bb c = [lower_call st bb c].
+Proof.
+  revert c; induction st as [|ad rest IH]; intros c; cbn [lower lower_call lower1 flat_map]; [reflexivity|].
+  rewrite app_nil_r. apply IH.
+Qed.
+
+(* The geometric content of a stack: the box it reports, which of its points reach the root target,
+   the shift from its coordinates to root coordinates, the composed colour map. *)
+Record geo := G { g_box : rect; g_vis : point -> bool; g_off : point; g_col : color -> color }.
+
+Definition geo_step (ad : adapter) (g : geo) : geo :=
+  match ad with
+  | Clip a => let b := intersection a (g_box g) in
+              G b (fun q => g_vis g q && contains b q) (g_off g) (g_col g)
+  | Crop a => let i := intersection a (g_box g) in
+              G (R (P 0 0) (sz i)) (fun q => g_vis g (padd q (tl i))) (padd (tl i) (g_off g)) (g_col g)
+  | Transl d => G (translate_rect (g_box g) (pneg d)) (fun q => g_vis g (padd q d)) (padd d (g_off g)) (g_col g)
+  | Conv f => G (g_box g) (g_vis g) (g_off g) (fun x => g_col g (f x))
+  end.
+
+Fixpoint geo_of (st : list adapter) (bb : rect) : geo :=
+  match st with
+  | [] => G bb (contains bb) (P 0 0) idc
+  | ad :: rest => geo_step ad (geo_of rest bb)
+  end.
+
+Lemma geo_box st bb : g_box (geo_of st bb) = bbox_stack st bb.
+Proof.
+  induction st as [|ad rest IH]; cbn [geo_of bbox_stack g_box]; [reflexivity|].
+  destruct ad; cbn [geo_step g_box bbox_of]; rewrite IH; reflexivity.
+Qed.
+
+Lemma bbox_stack_sizes st bb :
+  size_fits (sz bb) -> Forall adapter_sizes st -> size_fits (sz (bbox_stack st bb)).
+Proof.
+  intros Hb Hst. induction Hst as [|ad rest Had Hrest IH]; cbn [bbox_stack]; [assumption|].
+  destruct ad; cbn [bbox_of adapter_sizes sz] in *; try assumption;
+    try (apply intersection_size_fits; assumption).
+Qed.
+
+Lemma lower1c_sizes ad B c :
+  adapter_sizes ad -> size_fits (sz B) -> call_sizes c -> call_sizes (lower1c ad B c).
+Proof.
+  intros Had HB Hc. destruct ad as [a|a|d|f]; cbn [lower1c adapter_sizes] in *.
+  - pose proof (intersection_size_fits a B Had HB) as Hi.
+    destruct c as [ps|area cs|area col|col]; cbn [clip_call call_sizes clip_fill_solid] in *; try exact I.
+    + destruct (rect_eqb _ area); cbn [call_sizes]; [assumption|apply intersection_size_fits; assumption].
+    + apply intersection_size_fits; assumption.
+    + apply intersection_size_fits; assumption.
+  - pose proof (intersection_size_fits a B Had HB) as Hi.
+    destruct c as [ps|area cs|area col|col]; cbn [crop_call transl_call call_sizes translate_rect sz] in *; try exact I; try assumption.
+  - destruct c; cbn [transl_call call_sizes translate_rect sz] in *; assumption.
+  - destruct c; cbn [conv_call call_sizes] in *; assumption.
+Qed.
+
+Theorem stack_compose st bb k :
+  size_fits (sz bb) -> Forall adapter_sizes st ->
+  forall c m q, call_sizes c ->
+  (k = DefaultOnly -> rect_fits bb /\ call_fits (lower_call st bb c)) ->
+  paint_all bb k (lower st bb c) m (padd q (g_off (geo_of st bb))) =
+  if g_vis (geo_of st bb) q
+  then free_paint (g_box (geo_of st bb)) (g_col (geo_of st bb)) c (shift (g_off (geo_of st bb)) m) q
+  else m (padd q (g_off (geo_of st bb))).
+Proof.
+  intros Hb Hst. induction Hst as [|ad rest Had Hrest IH]; intros c m q Hc Hk.
+  - cbn [lower geo_of g_off g_vis g_box g_col paint_all fold_left lower_call] in *.
+    rewrite padd_zero. rewrite paint_root by assumption.
+    destruct (contains bb q); [|reflexivity].
+    apply free_paint_local. unfold shift. rewrite padd_zero. reflexivity.
+  - cbn [lower lower1 flat_map lower_call] in *. rewrite app_nil_r.
+    pose proof (bbox_stack_sizes rest bb Hb Hrest) as HB.
+    pose proof (lower1c_sizes ad _ c Had HB Hc) as Hc'.
+    specialize (IH (lower1c ad (bbox_stack rest bb) c) m).
+    cbn [geo_of]. rewrite <- (geo_box rest bb) in *. set (g := geo_of rest bb) in *.
+    destruct ad as [a|a|d|f]; cbn [geo_step g_off g_vis g_box g_col lower1c] in *.
+    + rewrite (IH q Hc' Hk).
+      rewrite free_clip; [|assumption|apply size_fits_nonneg, intersection_size_fits; assumption].
+      unfold shift. destruct (g_vis g q), (contains (intersection a (g_box g)) q); reflexivity.
+    + rewrite <- padd_assoc. rewrite (IH (padd q (tl (intersection a (g_box g)))) Hc' Hk).
+      destruct (g_vis g _); [|reflexivity].
+      rewrite free_crop. apply free_paint_local. unfold shift. rewrite padd_assoc. reflexivity.
+    + rewrite <- padd_assoc. rewrite (IH (padd q d) Hc' Hk).
+      destruct (g_vis g _); [|reflexivity].
+      rewrite free_transl. apply free_paint_local. unfold shift. rewrite padd_assoc. reflexivity.
+    + rewrite (IH q Hc' Hk). destruct (g_vis g q); [|reflexivity]. apply free_conv.
+Qed.
